@@ -348,11 +348,39 @@ def relative_ctx(ctx, base):
 # ---- C07 template rules ---------------------------------------------------------------------------
 
 def struct_emitters(X):
+    """The functions that write a whole `pub struct .. { .. }`: their stream (writer helpers inlined) opens a struct and closes it
+    again, and the opening line comes from the function itself or from a helper that does not write a whole struct on its own
+    (`write_struct_header`). A function that merely calls such an emitter is not one."""
+    if getattr(X, "_struct_emitters", None) is not None:
+        return X._struct_emitters
+    complete = {}
+    streams = {}
+    for fn in X.events:
+        try:
+            evs = [e for e in inline(X, fn) if e.kind == "emit"]
+        except og.Unrecognised:
+            continue
+        streams[fn] = evs
+        opened = False
+        done = False
+        for e in evs:
+            sk = e.skeleton()
+            if RE_STRUCT_OPEN.match(sk):
+                opened = True
+            elif opened and sk.strip() == "}":
+                done = True
+                break
+        complete[fn] = done
     out = []
-    for fn, evs in X.events.items():
-        if any(e.kind == "emit" and RE_STRUCT_OPEN.match(e.skeleton()) for e in evs):
-            out.append(fn)
-    return sorted(out)
+    for fn, evs in streams.items():
+        if not complete.get(fn):
+            continue
+        for e in evs:
+            if RE_STRUCT_OPEN.match(e.skeleton()) and not any(complete.get(c) for c in e.chain[1:]):
+                out.append(fn)
+                break
+    X._struct_emitters = sorted(out)
+    return X._struct_emitters
 
 
 def c07_template_rules(ck, F):
